@@ -643,7 +643,10 @@ impl Gen {
                 } else {
                     1 + rng.below(20) as u16
                 };
-                Step::Broker(BrokerAct::Send(SPacket::PubRel { pid, reason: None, props: None }))
+                // short form, or the long form with a reason code (0x92 = the broker no longer knows the identifier)
+                let reason = *rng.pick(&[None, None, Some(0u8), Some(0x92)]);
+                let props = if reason.is_some() && rng.chance(1, 2) { Some(vec![]) } else { None };
+                Step::Broker(BrokerAct::Send(SPacket::PubRel { pid, reason, props }))
             }
             16 => Step::Broker(BrokerAct::Close),
             17 => Step::Broker(BrokerAct::Send(SPacket::Disconnect {
